@@ -110,6 +110,28 @@ def main():
     if a.update_ledger:
         save_ledger(ledger)
 
+    # ---------------- 1b. thorough tier: self-tests of the machinery (engine / theories / lemmas), never mapped to violations
+    thorough = {}
+    if a.tier == 'thorough' and not a.no_bounded:
+        from pyvc import mutants as pymut, bits as pybits, seqs as pyseqs
+        t1 = time.time()
+        try:
+            thorough['bits_axiom_instances_checked_against_cpython'] = pybits.selftest_axioms(lim=40, kmax=9)
+            thorough['seq_axiom_instances_checked_against_cpython'] = pyseqs.selftest()
+        except AssertionError as e:
+            selfcheck_problems.append('theory axiom refuted by CPython: %r' % (e,))
+        os.environ.setdefault('PYVC_Z3_TIMEOUT_MS', '5000')
+        n_mut, wrong = pymut.run(only_units=set(units), verbose=False)
+        thorough['in_memory_mutants'] = {'run': n_mut, 'wrong': [list(map(str, w))[:3] for w in wrong]}
+        for w in wrong:
+            selfcheck_problems.append('in-memory mutant verdict wrong (generator self-test): %s' % (list(map(str, w))[:3],))
+        if os.path.isdir(os.path.join(VERIF, 'lemmas')):
+            pr = subprocess.run(['sh', os.path.join(VERIF, 'lemmas', 'build.sh')], capture_output=True, text=True, timeout=1800)
+            thorough['lean'] = pr.stdout.strip().splitlines()[-6:]
+            if pr.returncode != 0:
+                tool_problems.append('Lean lemma files do not check: ' + pr.stdout[-300:])
+        thorough['selftest_wall_s'] = round(time.time() - t1, 1)
+
     # ---------------- 2. linkage + bounded side
     bounded = None
     linkage = None
@@ -206,6 +228,8 @@ def main():
         'undischarged': [{'unit': u, 'obligation': n, 'status': s, 'detail': d[:300]} for u, n, s, d in failed_obls],
         'linkage': linkage,
         'order_scan': order_scan,
+        'thorough_selftests': thorough or None,
+        'assume_sites_in_contracts': assume_scan(),
         'proved_part': spec.get('proved_part', ''),
         'bounded_part': spec.get('bounded_part', ''),
         'evaluations': (bounded or {}).get('evaluations', 0),
@@ -247,6 +271,22 @@ def main():
             print('UNDECIDED: ' + s)
         return 2
     return 0
+
+
+def assume_scan():
+    """Mechanical scan: every `assume(` in the contract files (lemma instances, callee postconditions, requires); reported so
+    that a reader can audit what is taken for granted.  Full list: ./check --list-assumes"""
+    import re
+    n, files = 0, {}
+    cdir = os.path.join(VERIF, 'contracts')
+    for f in sorted(os.listdir(cdir)):
+        if f.endswith('.py'):
+            with open(os.path.join(cdir, f)) as fh:
+                c = len(re.findall(r'\.assume\(', fh.read()))
+            if c:
+                files[f] = c
+                n += c
+    return {'total': n, 'by_file': files}
 
 
 def load_ledger():
